@@ -228,6 +228,8 @@ class Explorer:
             "skipped_result_outside_explicit_output_rep": sum(s["skip_out_range"] for s in S),
             "skipped_point_value_within_2pow16_of_working_type_max": sum(s["skip_headroom"] for s in S),
             "values_with_integral_exact_result": sum(s["exact_int"] for s in S),
+            "info_ties_(e evaluated in long double)_rounded_away_from_zero": sum(s["ties_away"] for s in S),
+            "info_ties_(e evaluated in long double)_rounded_toward_zero": sum(s["ties_toward"] for s in S),
             "instances_with_both_round_directions": sum(1 for s in g if s["up"] and s["down"]),
             "raw_violations": sum(s["viol"] for s in S),
             "samples": [{"rounding": "%s -> %s" % (byid[s["inst"]]["pair"]["src"].name, byid[s["inst"]]["pair"]["tgt"].name),
